@@ -695,6 +695,24 @@ func (d *rtDriver) invalidCommit(pl *roundPlan, snap *RuntimeSnapshot) *GenTx {
 		tx := roothash.NewExecutorCommitTx(g.nonce(signer), g.feeSure(4000), g.h.Sc.Runtime.ID, nil)
 		gt := g.finish(signer, tx, "no commitments")
 		return gt // succeeds (no commitments is a no-op)
+	case "rt:bad-commit-signature":
+		// A vote in the name of a member that has not voted yet, preferably: with a result or indicating
+		// failure (a vote nobody signed must not count either way, and must not block the member's own).
+		all := append(append([]*SimNode(nil), workers...), backups...)
+		var fresh []*SimNode
+		for _, n := range all {
+			if !pl.voted[n.Name+"|"+s0.Name] && n != s0 {
+				fresh = append(fresh, n)
+			}
+		}
+		v := "A"
+		if len(fresh) > 0 {
+			w = pick(d, fresh)
+			if rng.IntN(2) == 0 {
+				v = "fail"
+			}
+		}
+		return d.commitTx(pl, plannedCommit{node: w, sched: s0, variant: v, intent: k})
 	default:
 		return d.commitTx(pl, plannedCommit{node: w, sched: s0, variant: "A", intent: k})
 	}
